@@ -48,18 +48,30 @@ func (d *Document) ObjectFieldsAreEqual(left, right int) bool {
 		d.ValuesAreEqual(d.ObjectFieldValue(left), d.ObjectFieldValue(right))
 }
 
+// ObjectValuesAreEqual reports whether two input object values hold the same fields.
+// Input object fields are unordered (their names are unique), so {a: 1, b: 2} and {b: 2, a: 1}
+// are equal: the partner of a field is looked up by name, not by position.
 func (d *Document) ObjectValuesAreEqual(left, right int) bool {
 	leftFields, rightFields := d.ObjectValues[left].Refs, d.ObjectValues[right].Refs
 	if len(leftFields) != len(rightFields) {
 		return false
 	}
-	for i := range leftFields {
-		left, right = leftFields[i], rightFields[i]
-		if !d.ObjectFieldsAreEqual(left, right) {
+	for _, leftField := range leftFields {
+		rightField, ok := d.objectFieldByName(rightFields, d.ObjectFieldNameBytes(leftField))
+		if !ok || !d.ValuesAreEqual(d.ObjectFieldValue(leftField), d.ObjectFieldValue(rightField)) {
 			return false
 		}
 	}
 	return true
+}
+
+func (d *Document) objectFieldByName(refs []int, name ByteSlice) (int, bool) {
+	for _, ref := range refs {
+		if bytes.Equal(d.ObjectFieldNameBytes(ref), name) {
+			return ref, true
+		}
+	}
+	return InvalidRef, false
 }
 
 func (d *Document) AddObjectField(field ObjectField) (ref int) {
